@@ -322,3 +322,374 @@ Proof. intros W. pose proof (regnode_rt T_Register n W) as H. node_tac2 H. Qed.
 Lemma node_iswiss fixed fresh n : wf_iswiss n ->
   parse_node fixed fresh (render (SnIntSwissKnife n)) = Ok (pres1 fresh (NdIntSwissKnife (n_iswiss n))).
 Proof. intros W. pose proof (iswiss_rt n W) as H. node_tac2 H. Qed.
+
+(* ---------------------------------------------------------------------------------------------- *)
+(* Enumeration and its entries                                                                      *)
+
+Definition wf_enumentry (e : enumentry Src) : Prop :=
+  wf_eb (ee_eb e) /\ wf_i64 (ee_value e) /\ oall wf_f (ee_numeric e).
+
+Lemma numeric_norm (o : option fval) : oall wf_f o -> option_map convert_to_f64 (option_map sh_fval o) = o.
+Proof. destruct o as [f|]; cbn; [|reflexivity]. intros W. now rewrite (f64_sh f W). Qed.
+
+Lemma enumentry_rt fresh e : wf_enumentry e ->
+  match r_enumentry e with Elem _ attrs ch => p_enumentry fresh attrs ch | _ => fail [] end
+  = Ok (n_enumentry fresh e, []).
+Proof.
+  intros (W1 & W2 & W3). unfold r_enumentry, p_enumentry.
+  rewrite (proj1 (attribute_of_r_attr (ee_attr e))). rewrite with_attr_rt.
+  eb_step W1.
+  eapply bind_step; [apply (leaf_i64 T_Value [] (ee_value e)); exact W2|]. cbn beta.
+  step. step. unfold n_enumentry, entry_name. rewrite (numeric_norm _ W3). reflexivity.
+Qed.
+
+Lemma n_enumentries_length l : forall fresh, List.length (n_enumentries fresh l) = List.length l.
+Proof. induction l; intros fresh; cbn; [reflexivity | now rewrite IHl]. Qed.
+
+Lemma loop_enumentries k : hn [T_EnumEntry] k -> forall l, Forall wf_enumentry l ->
+  forall fuel fresh, (List.length l < fuel)%nat ->
+  p_enumentries fuel fresh (map r_enumentry l ++ k) = Ok (n_enumentries fresh l, k).
+Proof.
+  intros H. induction l as [|e l IH]; intros W fuel fresh Hf; (destruct fuel as [|f]; [cbn in Hf; lia|]).
+  - cbn [p_enumentries map app n_enumentries].
+    eapply bind_step; [apply next_if_absent; exact H | reflexivity].
+  - inversion W as [|? ? We Wl]; subst. cbn [p_enumentries map app n_enumentries].
+    pose proof (enumentry_rt fresh e We) as E. unfold r_enumentry in *.
+    eapply bind_step; [reflexivity|]. cbn beta iota.
+    rewrite (run_elem_ok (p_enumentry fresh) _ _ _ _ E). cbn [lift].
+    eapply bind_step; [reflexivity|]. cbn beta.
+    eapply bind_step; [apply IH; [exact Wl | cbn in Hf; lia] | reflexivity].
+Qed.
+
+Lemma hn_enumentries ts l k : mem_str T_EnumEntry ts = false -> hn ts k -> hn ts (map r_enumentry l ++ k).
+Proof. intros H1 H2. destruct l; [exact H2 | exact H1]. Qed.
+
+Ltac hn_tac ::=
+  repeat first
+    [ apply hn_nil
+    | apply hn_elem; reflexivity
+    | apply hn_ropt; [reflexivity|]
+    | apply hn_rmany; [reflexivity|]
+    | apply hn_rimm; [reflexivity|reflexivity]
+    | apply hn_roimm; [reflexivity|reflexivity|]
+    | apply hn_r_vk; reflexivity
+    | apply hn_r_named; [reflexivity|]
+    | apply hn_addrs; [reflexivity|]
+    | apply hn_r_bitmask; reflexivity
+    | apply hn_enumentries; [reflexivity|]
+    | (eapply hn_incl; [eassumption|reflexivity]) ].
+
+Definition wf_enumeration (n : enumeration Src) : Prop :=
+  wf_eb (en_eb n) /\ Forall wf_enumentry (en_entries n) /\ wf_imm_i (en_value n) /\ oall wf_u64 (en_polling n).
+
+Lemma enumeration_rt fresh n : wf_enumeration n ->
+  match r_enumeration n with Elem _ attrs ch => p_enumeration fresh attrs ch | _ => fail [] end
+  = Ok ((n_enumeration fresh n, map NdEnumEntry (n_enumentries fresh (en_entries n))), []).
+Proof.
+  intros (W1 & W2 & W3 & W4). unfold r_enumeration, p_enumeration. rewrite with_attr_rt.
+  eb_step W1. step.
+  eapply bind_step.
+  { eapply loop_enumentries; [solve [hn_tac] | exact W2 | rewrite app_length, map_length; lia]. }
+  cbn beta.
+  eapply bind_step; [apply (pimm_rimm p_imm_i64 sh_ilit il_val wf_i64 ident _ _ _ _ ileaf_i64 W3)|]. cbn beta.
+  step. step. reflexivity.
+Qed.
+
+Lemma node_enumeration fixed fresh n : wf_enumeration n ->
+  parse_node fixed fresh (render (SnEnumeration n)) =
+  Ok (mkPres (map NdEnumEntry (n_enumentries fresh (en_entries n))) [NdEnumeration (n_enumeration fresh n)] []
+             (fresh + Z.of_nat (List.length (en_entries n)))).
+Proof.
+  intros W. pose proof (enumeration_rt fresh n W) as H.
+  replace (Z.of_nat (List.length (en_entries n)))
+    with (Z.of_nat (List.length (map NdEnumEntry (n_enumentries fresh (en_entries n)))))
+    by (rewrite map_length, n_enumentries_length; reflexivity).
+  node_tac2 H.
+Qed.
+
+(* ---------------------------------------------------------------------------------------------- *)
+(* StructReg parsing                                                                                *)
+
+Definition wf_sentry (e : sentry Src) : Prop :=
+  wf_eb (se_eb e) /\ oall wf_u64 (se_polling e) /\ wf_bitmask (se_mask e).
+
+Lemma sentry_rt e : wf_sentry e ->
+  match r_sentry e with Elem _ attrs ch => p_sentry true attrs ch | _ => fail [] end = Ok (n_sentry e, []).
+Proof.
+  intros (W1 & W2 & W3). unfold r_sentry, p_sentry. rewrite with_attr_rt.
+  eb_step W1. eapply bind_step; [reflexivity|]. cbn beta iota zeta.
+  step. step. step. step.
+  eapply bind_step; [apply p_bitmask_rt; exact W3|]. cbn beta.
+  step. step. step. step. reflexivity.
+Qed.
+
+Lemma sentries_rt l : Forall wf_sentry l -> p_sentries true (map r_sentry l) = Ok (map n_sentry l).
+Proof.
+  induction l as [|e l IH]; intros W; [reflexivity|]. inversion W as [|? ? We Wl]; subst.
+  pose proof (sentry_rt e We) as E. cbn [map]. unfold r_sentry in *. cbn [p_sentries].
+  change (str_eqb T_StructEntry T_StructEntry) with true. cbv iota.
+  rewrite (run_elem_ok (p_sentry true) _ _ _ _ E). cbn [bind]. rewrite (IH Wl). reflexivity.
+Qed.
+
+Lemma hn_sentries ts l : mem_str T_StructEntry ts = false -> hn ts (map r_sentry l).
+Proof. intros H. destruct l; [exact Logic.I | exact H]. Qed.
+
+Ltac hn_tac ::=
+  repeat first
+    [ apply hn_nil
+    | apply hn_elem; reflexivity
+    | apply hn_ropt; [reflexivity|]
+    | apply hn_rmany; [reflexivity|]
+    | apply hn_rimm; [reflexivity|reflexivity]
+    | apply hn_roimm; [reflexivity|reflexivity|]
+    | apply hn_r_vk; reflexivity
+    | apply hn_r_named; [reflexivity|]
+    | apply hn_addrs; [reflexivity|]
+    | apply hn_r_bitmask; reflexivity
+    | apply hn_enumentries; [reflexivity|]
+    | apply hn_sentries; reflexivity
+    | (eapply hn_incl; [eassumption|reflexivity]) ].
+
+Definition wf_struct (s : structreg Src) : Prop := wf_rb (st_rb s) /\ Forall wf_sentry (st_entries s).
+
+Lemma struct_rt s : wf_struct s ->
+  match r_struct s with Elem _ _ ch => p_struct true ch | _ => fail [] end
+  = Ok ((n_struct s, rb_nodes (st_rb s)), []).
+Proof.
+  intros (W1 & W2). unfold r_struct, p_struct.
+  rb_step W1. step. rewrite (sentries_rt _ W2). reflexivity.
+Qed.
+
+Lemma node_struct fresh s : wf_struct s ->
+  parse_node true fresh (render (SnStructReg s)) =
+  Ok (mkPres (rb_nodes (st_rb s)) (map NdMaskedIntReg (into_masked_int_regs true (n_struct s)))
+             (masked_invs (into_masked_int_regs true (n_struct s))) fresh).
+Proof. intros W. pose proof (struct_rt s W) as H. node_tac2 H. Qed.
+
+(* parsing composed with the desugaring rule: a declared StructReg is stored as its MaskedIntReg twins *)
+Lemma node_struct_twins fresh s : wf_struct s -> Forall (fun e => limited s e = false) (st_entries s) ->
+  let twins := map (fun e => n_masked (twin_src s e)) (st_entries s) in
+  parse_node true fresh (render (SnStructReg s)) =
+  Ok (mkPres (rb_nodes (st_rb s)) (map NdMaskedIntReg twins) (masked_invs twins) fresh).
+Proof.
+  intros W L twins. rewrite (node_struct fresh s W).
+  destruct W as ((_ & W2 & _) & _). rewrite (struct_desugar s W2 L). reflexivity.
+Qed.
+
+(* ---------------------------------------------------------------------------------------------- *)
+(* every modelled kind, Group included                                                              *)
+
+Fixpoint wf_node (n : snode) : Prop :=
+  match n with
+  | SnNode x => wf_plain x | SnCategory x => wf_category x | SnInteger x => wf_integer x
+  | SnIntReg x => wf_intreg x | SnMaskedIntReg x => wf_masked x | SnBoolean x => wf_boolean x
+  | SnCommand x => wf_command x | SnEnumeration x => wf_enumeration x | SnFloat x => wf_float x
+  | SnFloatReg x => wf_floatreg x | SnString x => wf_stringn x | SnStringReg x => wf_regnode x
+  | SnRegister x => wf_regnode x | SnIntSwissKnife x => wf_iswiss x | SnPort x => wf_port x
+  | SnStructReg s => wf_struct s /\ Forall (fun e => limited s e = false) (st_entries s)
+  | SnGroup l => (fix all (l : list snode) : Prop := match l with [] => True | x :: r => wf_node x /\ all r end) l
+  end.
+
+(* what parsing the declared node must produce: nodes stored on the way (embedded swiss knives, enum entries),
+   nodes handed to the caller, invalidator registrations, next fresh id *)
+Fixpoint expect (fresh : Z) (n : snode) : presult :=
+  match n with
+  | SnNode x => pres1 fresh (NdNode (n_plain x))
+  | SnCategory x => pres1 fresh (NdCategory (n_category x))
+  | SnInteger x => pres1 fresh (NdInteger (n_integer x))
+  | SnIntReg x => mkPres (rb_nodes (ir_rb x)) [NdIntReg (n_intreg x)] (reg_invs (n_rb (ir_rb x)) (a_name (ir_attr x))) fresh
+  | SnMaskedIntReg x =>
+      mkPres (rb_nodes (mr_rb x)) [NdMaskedIntReg (n_masked x)] (reg_invs (n_rb (mr_rb x)) (a_name (mr_attr x))) fresh
+  | SnBoolean x => pres1 fresh (NdBoolean (n_boolean x))
+  | SnCommand x => pres1 fresh (NdCommand (n_command x))
+  | SnEnumeration x =>
+      mkPres (map NdEnumEntry (n_enumentries fresh (en_entries x))) [NdEnumeration (n_enumeration fresh x)] []
+             (fresh + Z.of_nat (List.length (en_entries x)))
+  | SnFloat x => pres1 fresh (NdFloat (n_float x))
+  | SnFloatReg x => mkPres (rb_nodes (fr_rb x)) [NdFloatReg (n_floatreg x)] (reg_invs (n_rb (fr_rb x)) (a_name (fr_attr x))) fresh
+  | SnString x => pres1 fresh (NdString (n_stringn x))
+  | SnStringReg x => mkPres (rb_nodes (rn_rb x)) [NdStringReg (n_regnode x)] (reg_invs (n_rb (rn_rb x)) (a_name (rn_attr x))) fresh
+  | SnRegister x => mkPres (rb_nodes (rn_rb x)) [NdRegister (n_regnode x)] (reg_invs (n_rb (rn_rb x)) (a_name (rn_attr x))) fresh
+  | SnIntSwissKnife x => pres1 fresh (NdIntSwissKnife (n_iswiss x))
+  | SnPort x => pres1 fresh (NdPort (n_port x))
+  | SnStructReg s =>
+      let twins := map (fun e => n_masked (twin_src s e)) (st_entries s) in
+      mkPres (rb_nodes (st_rb s)) (map NdMaskedIntReg twins) (masked_invs twins) fresh
+  | SnGroup l =>
+      (fix go (l : list snode) (acc : presult) : presult :=
+         match l with [] => acc | x :: r => go r (pres_app acc (expect (pr_fresh acc) x)) end) l (mkPres [] [] [] fresh)
+  end.
+
+Definition wf_all := fix all (l : list snode) : Prop := match l with [] => True | x :: r => wf_node x /\ all r end.
+Definition expect_go := fix go (l : list snode) (acc : presult) : presult :=
+  match l with [] => acc | x :: r => go r (pres_app acc (expect (pr_fresh acc) x)) end.
+
+Lemma render_is_elem n : exists t a c, render n = Elem t a c.
+Proof. destruct n; eexists _, _, _; reflexivity. Qed.
+
+Lemma roundtrip_all : forall n fresh, wf_node n -> parse_node true fresh (render n) = Ok (expect fresh n).
+Proof.
+  fix IH 1. intros n fresh. destruct n as [x|x|x|x|x|x|x|x|x|x|x|x|x|x|x|s|l]; cbn [wf_node expect]; intros W.
+  - apply node_plain; exact W.
+  - apply node_category; exact W.
+  - apply node_integer; exact W.
+  - apply node_intreg; exact W.
+  - apply node_masked; exact W.
+  - apply node_boolean; exact W.
+  - apply node_command; exact W.
+  - apply node_enumeration; exact W.
+  - apply node_float; exact W.
+  - apply node_floatreg; exact W.
+  - apply node_string; exact W.
+  - apply node_stringreg; exact W.
+  - apply node_register; exact W.
+  - apply node_iswiss; exact W.
+  - apply node_port; exact W.
+  - destruct W as [W1 W2]. apply (node_struct_twins fresh s W1 W2).
+  - fold wf_all in W. fold expect_go. cbn [render]. rewrite group_unfold.
+    generalize (mkPres [] [] [] fresh) as acc. revert W.
+    induction l as [|x r IHr]; intros W acc; [reflexivity|].
+    destruct W as [Wx Wr]. cbn [map].
+    destruct (render_is_elem x) as (t & a & c & E). rewrite E. cbn [group_go]. fold (group_go true).
+    rewrite <- E. rewrite (IH x (pr_fresh acc) Wx). cbn [bind]. cbn [expect_go]. fold expect_go.
+    apply IHr. exact Wr.
+Qed.
+
+(* ---------------------------------------------------------------------------------------------- *)
+(* declared names and kinds                                                                         *)
+
+Fixpoint declared (n : snode) : list (str * Z) :=
+  match n with
+  | SnNode x => [(a_name (pl_attr x), 0)] | SnCategory x => [(a_name (ca_attr x), 1)]
+  | SnInteger x => [(a_name (i_attr x), 2)] | SnIntReg x => [(a_name (ir_attr x), 3)]
+  | SnMaskedIntReg x => [(a_name (mr_attr x), 4)] | SnBoolean x => [(a_name (b_attr x), 5)]
+  | SnCommand x => [(a_name (c_attr x), 6)] | SnEnumeration x => [(a_name (en_attr x), 7)]
+  | SnFloat x => [(a_name (f_attr x), 9)] | SnFloatReg x => [(a_name (fr_attr x), 10)]
+  | SnString x => [(a_name (s_attr x), 11)] | SnStringReg x => [(a_name (rn_attr x), 12)]
+  | SnRegister x => [(a_name (rn_attr x), 13)] | SnIntSwissKnife x => [(a_name (sk_attr x), 17)]
+  | SnPort x => [(a_name (po_attr x), 18)]
+  | SnStructReg s => map (fun e => (a_name (se_attr e), 4)) (st_entries s)
+  | SnGroup l => (fix all (l : list snode) := match l with [] => [] | x :: r => declared x ++ all r end) l
+  end.
+Definition declared_all := fix all (l : list snode) := match l with [] => [] | x :: r => declared x ++ all r end.
+
+Definition name_kind (d : node_data) : str * Z := (nd_name d, kind_code d).
+
+Lemma names_all : forall n fresh, map name_kind (pr_ret (expect fresh n)) = declared n.
+Proof.
+  fix IH 1. intros n fresh. destruct n as [x|x|x|x|x|x|x|x|x|x|x|x|x|x|x|s|l]; try reflexivity.
+  - cbn [expect pr_ret declared]. rewrite !map_map. apply map_ext. intros e. reflexivity.
+  - cbn [expect declared]. fold expect_go. fold declared_all.
+    assert (G : forall l acc, map name_kind (pr_ret (expect_go l acc)) = map name_kind (pr_ret acc) ++ declared_all l).
+    { induction l0 as [|x r IHr]; intros acc; cbn [expect_go declared_all]; [now rewrite app_nil_r|].
+      fold expect_go. fold declared_all. rewrite IHr. cbn [pres_app pr_ret]. rewrite map_app, IH, app_assoc. reflexivity. }
+    rewrite G. reflexivity.
+Qed.
+
+(* enumeration entries are reachable through their enumeration: its entry list names exactly the stored entries *)
+Lemma enum_entries_retrievable fresh x :
+  en_entries (n_enumeration fresh x) = map nd_name (pr_stored (expect fresh (SnEnumeration x))) /\
+  map (fun e => ee_symbolic e) (n_enumentries fresh (en_entries x)) = map (fun e => a_name (ee_attr e)) (en_entries x).
+Proof.
+  split.
+  - cbn [expect pr_stored n_enumeration en_entries]. rewrite map_map. reflexivity.
+  - generalize fresh. induction (en_entries x) as [|e l IH]; intros f; cbn; [reflexivity|]. now rewrite IH.
+Qed.
+
+(* ---------------------------------------------------------------------------------------------- *)
+(* the document                                                                                     *)
+
+Fixpoint expect_seq (fresh : Z) (ns : list snode) : list presult :=
+  match ns with
+  | [] => []
+  | n :: r => let p := expect fresh n in p :: expect_seq (pr_fresh p) r
+  end.
+
+Lemma seq_expect : forall ns fresh, Forall wf_node ns -> seq_results true fresh (map render ns) = Ok (expect_seq fresh ns).
+Proof.
+  induction ns as [|n r IH]; intros fresh W; [reflexivity|]. inversion W as [|? ? Wn Wr]; subst.
+  cbn [map expect_seq]. destruct (render_is_elem n) as (t & a & c & E). rewrite E. cbn [seq_results].
+  rewrite <- E, (roundtrip_all n fresh Wn). cbn [bind]. rewrite (IH _ Wr). reflexivity.
+Qed.
+
+Lemma existsb_name_false st d : ~ In (nd_name d) (map nd_name st) ->
+  existsb (fun x => str_eqb (nd_name x) (nd_name d)) st = false.
+Proof.
+  intros H. destruct (existsb _ st) eqn:E; [|reflexivity].
+  apply existsb_exists in E. destruct E as (x & Hx & Ex). apply str_eqb_eq in Ex.
+  exfalso. apply H. rewrite <- Ex. apply in_map. exact Hx.
+Qed.
+
+Lemma store_all_nodup : forall l st, NoDup (map nd_name (st ++ l)) -> store_all st l = Ok (st ++ l).
+Proof.
+  induction l as [|d r IH]; intros st H; cbn [store_all]; [now rewrite app_nil_r|].
+  rewrite map_app in H. cbn [map] in H. pose proof (NoDup_remove_2 _ _ _ H) as N.
+  rewrite existsb_name_false by (intros X; apply N; apply in_or_app; left; exact X).
+  rewrite IH; [now rewrite <- app_assoc|]. rewrite <- app_assoc. cbn [app]. rewrite map_app. cbn [map]. exact H.
+Qed.
+
+Definition find_node (name : str) (l : list node_data) : option node_data :=
+  find (fun x => str_eqb (nd_name x) name) l.
+
+Lemma find_node_nodup : forall l d, NoDup (map nd_name l) -> In d l -> find_node (nd_name d) l = Some d.
+Proof.
+  induction l as [|x l IH]; intros d N I; [destruct I|]. cbn [map] in N. inversion N as [|? ? Nx Nl]; subst.
+  unfold find_node. cbn [find]. destruct I as [->|I]; [now rewrite str_eqb_refl|].
+  destruct (str_eqb (nd_name x) (nd_name d)) eqn:E.
+  - apply str_eqb_eq in E. exfalso. apply Nx. rewrite E. apply in_map. exact I.
+  - apply IH; assumption.
+Qed.
+
+Definition doc_nodes (ns : list snode) : list node_data :=
+  List.concat (map (fun q => pr_stored q ++ pr_ret q) (expect_seq 0 ns)).
+Definition doc_invs (ns : list snode) : list (str * str) := List.concat (map pr_invs (expect_seq 0 ns)).
+
+Lemma expect_seq_incl : forall ns fresh n, In n ns ->
+  exists f, incl (pr_ret (expect f n)) (List.concat (map (fun q => pr_stored q ++ pr_ret q) (expect_seq fresh ns))).
+Proof.
+  induction ns as [|m r IH]; intros fresh n I; [destruct I|]. cbn [expect_seq map List.concat].
+  destruct I as [->|I].
+  - exists fresh. intros d Hd. apply in_or_app. left. apply in_or_app. right. exact Hd.
+  - destruct (IH (pr_fresh (expect fresh m)) n I) as (f & Hf). exists f.
+    intros d Hd. apply in_or_app. right. apply Hf. exact Hd.
+Qed.
+
+Lemma document attrs rd ns :
+  parse_regdesc attrs = Ok rd -> Forall wf_node ns -> NoDup (map nd_name (doc_nodes ns)) ->
+  parse_doc true (Elem T_RegisterDescription attrs (map render ns)) = Ok (rd, mkStore (doc_nodes ns) (doc_invs ns)) /\
+  (forall d, In d (doc_nodes ns) -> find_node (nd_name d) (doc_nodes ns) = Some d) /\
+  (forall n name kind, In n ns -> In (name, kind) (declared n) ->
+     exists d, find_node name (doc_nodes ns) = Some d /\ nd_name d = name /\ kind_code d = kind).
+Proof.
+  intros R W N. split; [|split].
+  - unfold parse_doc. change (str_eqb T_RegisterDescription T_RegisterDescription) with true. cbn [negb].
+    rewrite R. cbn [bind].
+    rewrite (children_seq true _ 0 (mkStore [] []) _ (seq_expect ns 0 W)). cbn [s_nodes s_invs app].
+    fold (doc_nodes ns). fold (doc_invs ns). rewrite (store_all_nodup _ [] N). reflexivity.
+  - intros d I. apply find_node_nodup; assumption.
+  - intros n name kind I D. destruct (expect_seq_incl ns 0 n I) as (f & Hf).
+    rewrite <- (names_all n f) in D. apply in_map_iff in D. destruct D as (d & E & Hd).
+    exists d. unfold name_kind in E. injection E as E1 E2. split; [|split; assumption].
+    rewrite <- E1. apply find_node_nodup; [exact N | apply Hf; exact Hd].
+Qed.
+
+(* non-vacuity: a document (structure with two entries and invalidators + its port) meeting every hypothesis *)
+Definition example_attrs : list (str * str) :=
+  [(T_ModelName, [77]); (T_VendorName, [86]); (T_StandardNameSpace, L_None); (T_SchemaMajorVersion, [49]);
+   (T_SchemaMinorVersion, [49]); (T_SchemaSubMinorVersion, [48]); (T_MajorVersion, [49]); (T_MinorVersion, [50]);
+   (T_SubMinorVersion, [51]); (T_ProductGuid, [97]); (T_VersionGuid, [98])].
+Definition example_nodes : list snode :=
+  [SnStructReg refuted_struct; SnPort (mkPort Src (mkAttr Src [68] None None None) eb0 None None None);
+   SnInteger (mkInteger Src (mkAttr Src [65] None None None) eb0 None (SvPValue [[67]] [86] []) None
+                        (Some (PNode [77])) (Some (Imm (IL (FmHex true false) 255))) None None [])].
+
+Lemma document_example :
+  exists rd, parse_regdesc example_attrs = Ok rd /\ Forall wf_node example_nodes /\
+    NoDup (map nd_name (doc_nodes example_nodes)) /\ List.length (doc_nodes example_nodes) = 4%nat /\
+    doc_invs example_nodes = [([89], [69; 48]); ([88], [69; 49])].
+Proof.
+  eexists. split; [vm_compute; reflexivity|]. split; [|split; [|split; reflexivity]].
+  - repeat constructor; try exact Logic.I; try (vm_compute; congruence).
+    exists 77, []. split; reflexivity.
+  - vm_compute. repeat constructor; cbn; intuition discriminate.
+Qed.
